@@ -113,7 +113,7 @@ def load_findings():
 def match_finding(findings, prop, cls, preds):
     """preds: set of predicate names that hold on the minimised trace."""
     for f in findings:
-        if f.get("property") != prop or f.get("class") != cls:
+        if f.get("property") != prop or (f.get("class") != cls and f.get("class") != "*"):
             continue
         need = [p for p in f.get("pred", "").split(",") if p]
         if all(p in preds for p in need):
